@@ -251,6 +251,62 @@ fn p_gen_lt() {
     assert!(r1 == r2, "C01 same result as the direct call");
     assert!(st == sd, "C01 same instance state as after the direct call");
 }
+//@ prefix=p_fwd kind=property clause=forwarded traits: an object built over Fwd(&mut T) / a Fwd used directly behaves as the direct call (incl. a default method body, a `mut` argument pattern, a supertrait bound); the builtin external trait AsRef through an object returns the implementor's own reference
+#[kani::proof]
+#[kani::unwind(9)]
+fn p_fwd_tw() {
+    use cglue::forward::{Forward, ForwardMut, Fwd};
+    let (s0, id, a, b): (State, u64, u64, u64) = kani::any();
+    let m: u8 = kani::any();
+    kani::assume(m < 4);
+    let mut sd = s0;
+    let mut d = Imp { st: &mut sd, id };
+    let r1 = match m { 0 => d.w_set(a, b), 1 => d.w_get(a), 2 => d.w_default(a), _ => d.w_alt(a) };
+    let id1 = d.id;
+    core::mem::forget(d);
+    let route: u8 = kani::any();
+    kani::assume(route < 2);
+    let mut st = s0;
+    let mut imp = Imp { st: &mut st, id };
+    let r2 = match route {
+        0 => { let mut o = trait_obj!(&mut imp as TW); match m { 0 => o.w_set(a, b), 1 => o.w_get(a), 2 => o.w_default(a), _ => o.w_alt(a) } }
+        _ => { let mut f = (&mut imp).forward_mut(); match m { 0 => f.w_set(a, b), 1 => f.w_get(a), 2 => f.w_default(a), _ => f.w_alt(a) } }
+    };
+    assert!(r1 == r2, "C01 same result as the direct call (forwarded trait)");
+    assert!(imp.id == id1, "C01 same instance updated as by the direct call (forwarded trait)");
+    core::mem::forget(imp);
+    assert!(st == sd, "C01 same instance state as after the direct call (forwarded trait)");
+    kani::cover!(route == 0 && m == 2, "object, default method");
+    kani::cover!(route == 1 && m == 0, "Fwd directly");
+}
+#[kani::proof]
+#[kani::unwind(9)]
+fn p_fwd_asref_ext() {
+    let (s0, id, a): (State, u64, u64) = kani::any();
+    let b: u32 = kani::any();
+    let which: bool = kani::any();
+    let mut sd = s0;
+    let mut d = Imp { st: &mut sd, id };
+    let r1 = if which { *AsRef::<u64>::as_ref(&d) } else { d.m_mutarg(a, b) };
+    core::mem::forget(d);
+    let mut st = s0;
+    let imp = Imp { st: &mut st, id };
+    let r2 = if which {
+        let o = trait_obj!(imp as AsRef<u64>);
+        let r: u64 = *o.as_ref();
+        core::mem::forget(o);
+        r
+    } else {
+        let mut o = trait_obj!(imp as TM);
+        let r = o.m_mutarg(a, b);
+        core::mem::forget(o);
+        r
+    };
+    assert!(r1 == r2, "C01 same result as the direct call (builtin external trait AsRef / default body with `mut` arguments)");
+    assert!(st == sd, "C01 same instance state as after the direct call (AsRef / default body with `mut` arguments)");
+    kani::cover!(which, "AsRef");
+    kani::cover!(!which, "mut args");
+}
 //@ prefix=p_grp kind=property clause=group object and successful casts of it (cast!, as_ref!, as_mut!, into!): mandatory and optional trait methods satisfy the same contract, on the same instance
 #[kani::proof]
 #[kani::unwind(9)]
